@@ -851,3 +851,177 @@ Proof.
   intros R F. destruct (spec_sim ls init chk0 s InvX_init Inv4_init Sim_init eq_refl F R) as (k & K & _).
   unfold c11_accepts. now rewrite K.
 Qed.
+
+(* ------------------------------------------------------------------------------------------------ *)
+(* every schedule of the client's own goroutines terminates, and when nothing more can be done every request
+   that was pending has reached the peer over the healthy current connection *)
+Definition spot (p : spc) : nat :=
+  match p with
+  | STop => 13 | SPollFail => 12 | SBlock => 11 | STick => 15 | SIdle => 14
+  | SCheck _ => 16 | SHook _ => 15 | SWrite _ => 14 | SRequeue _ => 8 | SFailPush _ => 13 | SFailClose => 1 | SExit => 0
+  end.
+Definition rpot (r : rpc) : nat := match r with RRun => 2 | RSignal => 1 | RExit => 0 end.
+Definition gpot (x : gen) : nat := spot (sp x) + rpot (rp x).
+Fixpoint sumg (f : nat -> gen) (n : nat) : nat := match n with 0 => 0 | S k => sumg f k + gpot (f k) end.
+Definition mu (s : st) : nat := sumg (gens s) (ngen s) + 6 * (length (sendQ s) + length (failQ s)).
+
+Lemma sumg_ext f f' n : (forall k, k < n -> f' k = f k) -> sumg f' n = sumg f n.
+Proof. induction n as [|n IH]; cbn; intros H; auto. rewrite IH, H; auto. Qed.
+
+Lemma sumg_change f f' g n : g < n -> (forall k, k <> g -> f' k = f k) -> sumg f' n + gpot (f g) = sumg f n + gpot (f' g).
+Proof.
+  induction n as [|n IH]; intros L H; [lia|]. cbn. destruct (Nat.eq_dec g n) as [->|N].
+  - rewrite (sumg_ext f f' n); [lia|]. intros k Hk. apply H. lia.
+  - rewrite (H n) by auto. assert (g < n) by lia. specialize (IH H0 H). lia.
+Qed.
+
+Lemma mu_step s l s' : Inv0 s -> internal l = true -> step true s l = Some s' -> mu s' < mu s.
+Proof.
+  intros HN IL H. destruct l; try discriminate IL; cbn [step] in H.
+  all: dstep H.
+  all: match goal with
+       | E : sp (gens ?s ?g) = _ |- _ => assert (L : g < ngen s) by (apply lt_ngen_of_sp; [auto|congruence])
+       | E : rp (gens ?s ?g) = RSignal |- _ => assert (L : g < ngen s) by (destruct (Nat.lt_ge_cases g (ngen s)); auto; rewrite (HN g) in E by lia; discriminate E)
+       | E : (?g <? ngen ?s) && _ = true |- _ => assert (L : g < ngen s) by (apply andb_prop in E; destruct E as [E _]; now apply Nat.ltb_lt in E)
+       | E : (?g <? ngen ?s) = true |- _ => assert (L : g < ngen s) by (now apply Nat.ltb_lt in E)
+       end.
+  all: unfold mu, do_close, w_sp, w_gen, w_gens; cbn [gens ngen sendQ failQ w_closedF w_failQ w_sendQ w_atts w_log].
+  all: match goal with L : ?g < ?n |- sumg ?f' ?n + _ < sumg ?f ?n + _ =>
+         let X := fresh "X" in assert (X := sumg_change f f' g n L);
+         let Y := fresh "Y" in assert (Y : forall k, k <> g -> f' k = f k) by (intros k Hk; unfold upd; apply Nat.eqb_neq in Hk; cbn; rewrite ?Hk; reflexivity);
+         specialize (X Y); clear Y; set (A := sumg f' n) in *; set (B := sumg f n) in * end.
+  all: unfold upd in X; cbn in X; rewrite ?Nat.eqb_refl in X; cbn in X; unfold gpot in X; cbn in X.
+  all: repeat match goal with E : sp (gens _ _) = _ |- _ => rewrite E in *; clear E | E : rp (gens _ _) = _ |- _ => rewrite E in *; clear E | E : failQ _ = _ |- _ => rewrite E in *; clear E | E : sendQ _ = _ |- _ => rewrite E in *; clear E end.
+  all: cbn in *; try lia.
+Qed.
+
+Lemma mu_run ls : forall s s', Inv s -> Forall (fun l => internal l = true) ls -> run true s ls = Some s' -> length ls + mu s' <= mu s.
+Proof.
+  induction ls as [|l r IH]; cbn [run]; intros s s' I F R.
+  - injection R as <-. cbn. lia.
+  - destruct (step true s l) as [s1|] eqn:E; [|discriminate]. inversion F as [|? ? Fl Fr]; subst.
+    pose proof (Inv_step _ _ _ I E) as I1. specialize (IH s1 s' I1 Fr R).
+    destruct I as (_ & _ & HN). pose proof (mu_step s l s1 HN Fl E). cbn. lia.
+Qed.
+
+Lemma healthy_internal_step s l s' c : InvX s -> healthy s c -> internal l = true -> step true s l = Some s' -> healthy s' c.
+Proof.
+  intros (_ & (_ & _ & HL & _)) (H1 & H2 & H3 & H4) IL H. destruct l; try discriminate IL; cbn [step] in H.
+  all: dstep H.
+  all: unfold healthy, do_close, w_sp, w_gen, w_gens, is_cur; cbn; rewrite ?H1; unfold upd; cbn.
+  all: repeat match goal with |- context [Nat.eqb ?a ?b] => destruct (Nat.eqb_spec a b); subst; cbn end.
+  all: repeat split; auto; try congruence.
+  all: exfalso.
+  all: try (rewrite H3, H4 in Heqb; cbn in Heqb; rewrite andb_false_r in Heqb; discriminate Heqb).
+  all: try (match goal with E : sp (gens _ ?g) = SFailClose |- _ => destruct (HL g) as [X|X]; [rewrite E; reflexivity|congruence|congruence] end).
+Qed.
+
+Definition quiescent (s : st) : Prop := forall l, internal l = true -> step true s l = None.
+
+(* in a state where none of the client's goroutines can move, nothing is pending *)
+Lemma quiescent_none_pending s c m : InvX s -> healthy s c -> quiescent s -> ~ pending s m.
+Proof.
+  intros (((HA & HC) & _ & HN) & (HD & _ & HL & HQ)) H Q PE.
+  pose proof (healthy_current _ _ H) as CU. destruct H as (H1 & H2 & H3 & H4).
+  assert (L : c < ngen s). { rewrite H1 in HA. tauto. }
+  assert (D : done (gens s c) = false). { destruct (done (gens s c)) eqn:E; auto. apply HD in E. congruence. }
+  assert (ST : forall g, g <> c -> sp (gens s g) <> STop -> dead (gens s g) = true /\ isCurrent s g = false).
+  { intros g N P. split.
+    - apply HC; [apply lt_ngen_of_sp; auto|congruence].
+    - unfold isCurrent, is_cur. rewrite H1. apply Nat.eqb_neq in N. rewrite Nat.eqb_sym, N. apply andb_false_r. }
+  apply Nat.ltb_lt in L.
+  destruct (sp (gens s c)) eqn:P.
+  - specialize (Q (LSTop c) eq_refl). cbn in Q. rewrite L, P in Q. discriminate.
+  - specialize (Q (LSPoll c) eq_refl). cbn in Q. rewrite P in Q. destruct (failQ s); discriminate.
+  - (* SBlock *)
+    destruct (failQ s) as [|x r] eqn:EF.
+    2: { specialize (Q (LSBlkFail c) eq_refl). cbn in Q. rewrite P, EF in Q. discriminate. }
+    destruct (sendQ s) as [|y r] eqn:ES.
+    2: { specialize (Q (LSBlkQueue c) eq_refl). cbn in Q. rewrite P, ES in Q. discriminate. }
+    unfold pending in PE. rewrite ES, EF in PE. destruct PE as [[]|[[]|(g & X)]].
+    destruct (Nat.eq_dec g c) as [->|N]. { rewrite P in X. discriminate. }
+    destruct (sp (gens s g)) eqn:PG; cbn in X; try discriminate; injection X as ->.
+    + specialize (Q (LSCheck g) eq_refl). cbn in Q. rewrite PG in Q. discriminate.
+    + specialize (Q (LSHook g) eq_refl). cbn in Q. rewrite PG in Q. discriminate.
+    + destruct (ST g N) as [DG _]; [congruence|]. specialize (Q (LSWriteErr g) eq_refl). cbn in Q. rewrite PG, DG in Q. discriminate.
+    + specialize (Q (LSRequeue g) eq_refl). cbn in Q. rewrite PG, EF in Q. discriminate.
+    + specialize (Q (LSFailPush g) eq_refl). cbn in Q. rewrite PG, EF in Q. discriminate.
+  - specialize (Q (LSTick c) eq_refl). cbn in Q. rewrite P in Q. discriminate.
+  - specialize (Q (LSIdleNo c) eq_refl). cbn in Q. rewrite P in Q. discriminate.
+  - specialize (Q (LSCheck c) eq_refl). cbn in Q. rewrite P in Q. discriminate.
+  - specialize (Q (LSHook c) eq_refl). cbn in Q. rewrite P in Q. discriminate.
+  - specialize (Q (LSWriteOk c) eq_refl). cbn in Q. rewrite P, H3 in Q. discriminate.
+  - destruct (HL c); [rewrite P; reflexivity|congruence|congruence].
+  - destruct (HL c); [rewrite P; reflexivity|congruence|congruence].
+  - destruct (HL c); [rewrite P; reflexivity|congruence|congruence].
+  - destruct (HL c); [rewrite P; reflexivity|congruence|congruence].
+Qed.
+
+
+(* a pending request stays pending until it has reached the peer over the current connection *)
+Lemma keep_step s l s' c m : InvX s -> healthy s c -> internal l = true -> step true s l = Some s' ->
+  pending s m \/ In m (got (gens s c)) -> pending s' m \/ In m (got (gens s' c)).
+Proof.
+  intros (((HA & HC) & _ & HN) & _) (H1 & H2 & H3 & H4) IL H PE.
+  assert (OC : forall g, sp (gens s g) <> STop -> dead (gens s g) = false -> g = c).
+  { intros g P D. destruct (Nat.eq_dec g c); auto. rewrite HC in D; [discriminate|apply lt_ngen_of_sp; auto|congruence]. }
+  destruct l; try discriminate IL; cbn [step] in H.
+  all: dstep H.
+  all: unfold pending, do_close, w_sp, w_gen, w_gens in *; cbn; unfold upd; cbn.
+  all: destruct PE as [[PE|[PE|(g0 & PE)]]|PE].
+  all: try (match goal with E : failQ _ = _, P : In _ (failQ _) |- _ => rewrite E in P; cbn in P end).
+  all: try (match goal with E : sendQ _ = _, P : In _ (sendQ _) |- _ => rewrite E in P; cbn in P end).
+  all: try contradiction.
+  (* the request is where it was *)
+  all: try solve [left; left; assumption | left; right; left; assumption].
+  all: try solve [right; repeat match goal with |- context [Nat.eqb ?a ?b] => destruct (Nat.eqb_spec a b); subst; cbn end; rewrite ?H4; cbn; rewrite ?in_app_iff; auto].
+  all: try solve [left; right; right; exists g0; destruct (Nat.eqb_spec g0 g); subst; cbn; auto; match goal with E : sp (gens _ _) = _ |- _ => rewrite E in PE; cbn in PE; try discriminate PE; try (destruct (isCurrent _ _)); cbn; auto end].
+  (* taken from a queue by g *)
+  all: try solve [destruct PE as [<-|PE]; [left; right; right; exists g; rewrite Nat.eqb_refl; reflexivity | (left; right; left; assumption) || (left; left; assumption)]].
+  - (* LRClose *) left; right; right. exists g0. destruct (Nat.eqb_spec g0 g); subst; cbn; rewrite ?Nat.eqb_refl; cbn; auto.
+  - (* LSRequeue *) destruct (Nat.eqb_spec g0 g).
+    + subst. rewrite Heqs0 in PE. cbn in PE. injection PE as ->. left; right; left; left. reflexivity.
+    + left; right; right. exists g0. apply Nat.eqb_neq in n. rewrite n. exact PE.
+  - (* LSWriteOk, peer closed: not the healthy connection *)
+    exfalso. cbn in Heqb0. assert (g = c) by (apply OC; congruence). subst. congruence.
+  - (* LSWriteOk *) destruct (Nat.eqb_spec g0 g).
+    + subst. rewrite Heqs0 in PE. cbn in PE. injection PE as ->. assert (g = c) by (apply OC; congruence). subst.
+      right. rewrite Nat.eqb_refl. cbn. rewrite in_app_iff. right. now left.
+    + left; right; right. exists g0. apply Nat.eqb_neq in n. rewrite n. exact PE.
+  - (* LSFailPush *) destruct (Nat.eqb_spec g0 g).
+    + subst. rewrite Heqs0 in PE. cbn in PE. injection PE as ->. left; right; left; left. reflexivity.
+    + left; right; right. exists g0. apply Nat.eqb_neq in n. rewrite n. exact PE.
+Qed.
+
+Lemma keep_run ls : forall s s' c m, InvX s -> healthy s c -> Forall (fun l => internal l = true) ls -> run true s ls = Some s' ->
+  pending s m \/ In m (got (gens s c)) -> healthy s' c /\ InvX s' /\ (pending s' m \/ In m (got (gens s' c))).
+Proof.
+  induction ls as [|l r IH]; cbn [run]; intros s s' c m I H F R PE.
+  - injection R as <-. auto.
+  - destruct (step true s l) as [s1|] eqn:E; [|discriminate]. inversion F as [|? ? Fl Fr]; subst.
+    eapply (IH s1); eauto.
+    + eapply InvX_step; eauto.
+    + eapply healthy_internal_step; eauto.
+    + eapply keep_step; eauto.
+Qed.
+
+(* INEVITABILITY: from a reachable state with a healthy current connection and a pending request, let the client's
+   goroutines run under ANY schedule (no further call, peer action or ticker).  (a) Every such run has at most
+   [mu s] steps; (b) when it has come to a state in which no goroutine can move, the request has reached the
+   peer over the current connection, which is still healthy. *)
+Theorem delivery_inevitable ls s c m ls' s' : run true init ls = Some s ->
+  cur s = Some c -> dead (gens s c) = false -> peerc (gens s c) = false -> pending s m ->
+  Forall (fun l => internal l = true) ls' -> run true s ls' = Some s' ->
+  length ls' + mu s' <= mu s /\
+  (quiescent s' -> In m (got (gens s' c)) /\ cur s' = Some c /\ dead (gens s' c) = false /\ peerc (gens s' c) = false).
+Proof.
+  intros R C D P PE F R'.
+  assert (I : InvX s). { eapply InvX_run; [apply InvX_init|exact R]. }
+  assert (H : healthy s c).
+  { unfold healthy. repeat split; auto. destruct I as (((HA & _) & _) & _). rewrite C in HA. destruct HA. congruence. }
+  split. { eapply mu_run; eauto. apply I. }
+  intros Q. destruct (keep_run ls' s s' c m I H F R' (or_introl PE)) as (H' & I' & [PE'|G]).
+  - exfalso. eapply quiescent_none_pending; eauto.
+  - destruct H' as (A & _ & B & B'). auto.
+Qed.
+
